@@ -1,6 +1,7 @@
 // C07 — ordered index reads return the correctly sorted, ranged page.
 //
-// Monitor: generated histories of Set / Increment* / PatchTreasures / Delete (plus virtual
+// Monitor: generated histories of Set / Increment* / PatchTreasures / Delete and the claim RPCs
+// PatchExpiredTreasures / ShiftExpiredTreasures / ShiftMatchingTreasures / ShiftByKeys (plus virtual
 // sleeps and idle evictions) run against the real gateway inside a synctest bubble, so that
 // server-stamped created/updated times are exact functions of the virtual clock and can be made
 // distinct or tied at will. Index reads (GetByIndex and GetByIndexStream through a fake server
@@ -193,6 +194,7 @@ type famState struct {
 	types    map[string]bool // value family: the VALUE_* index types read since the swamp was (re)opened
 	kinds    map[string]bool // value family: value kinds (and "NaN") the swamp held at any time since the index was first built
 	ins, mov bool
+	claim    string // "" | "patch-expired" | "shift": last claim RPC that reported >= 1 record while this index existed
 }
 
 type finding struct {
@@ -215,6 +217,7 @@ type caseResult struct {
 	evictions    int
 	hookHit      bool
 	errorsEmpty  int
+	claims       map[string]int // claim RPC outcomes: "<rpc>:<status>" -> records
 }
 
 type runner struct {
@@ -343,6 +346,8 @@ func (x *runner) tagFor(q *readReq) string {
 	switch {
 	case !st.built:
 		return "cold"
+	case st.claim != "":
+		return "after-" + st.claim // the index existed when a claim RPC took records out of it (and put them back)
 	case st.mov:
 		return "moved"
 	case other:
@@ -414,7 +419,113 @@ func (x *runner) doInc(s step) {
 	}
 }
 
+// markBuilt: the index pair of the family exists from now on (a read or a claim RPC built it).
+func (x *runner) markBuilt(fam, index string) {
+	st := x.fam[fam]
+	if !st.built {
+		*st = famState{built: true, types: map[string]bool{}, kinds: map[string]bool{}}
+		x.noteKinds()
+	}
+	if fam == "value" {
+		st.types[index] = true
+	}
+}
+
+func tsp(p *int64) *timestamppb.Timestamp {
+	if p == nil {
+		return nil
+	}
+	return timestamppb.New(time.Unix(0, *p).UTC())
+}
+
+// doClaim issues one claim RPC. These select from an ordered index (building it when cold), take
+// the selected records out of it and either put them back (PatchExpiredTreasures) or delete them
+// from the swamp (Shift*). What they select is not judged here (C18/C19); only the indexes they
+// leave behind are, through the reads that follow.
+func (x *runner) doClaim(s step) {
+	gw, ctx := x.r.GW, x.ctx
+	nonEmpty := len(x.snap) > 0
+	if nonEmpty {
+		switch s.Op {
+		case "pexp", "shexp":
+			x.markBuilt("etime", idxET)
+		case "shmatch":
+			x.markBuilt(family(s.Index), s.Index)
+		}
+	}
+	rpc, reported := "", 0
+	note := func(status string, n int) {
+		x.res.claims[rpc+":"+status] += n
+		reported += n
+	}
+	var err error
+	switch s.Op {
+	case "pexp":
+		rpc = "PatchExpiredTreasures"
+		req := &hydrapb.PatchExpiredTreasuresRequest{IslandID: x.island, SwampName: x.swamp, HowMany: s.HowMany}
+		if s.Val != "" {
+			v, _ := strconv.ParseUint(s.Val, 10, 8)
+			req.Ops = []*hydrapb.PatchOp{{Op: hydrapb.PatchOp_SET, Path: "n", Value: []byte{byte(v)}}}
+		}
+		if s.Meta {
+			req.Meta = &hydrapb.PatchMeta{SetUpdatedAt: s.StampUpdated, ClearExpiredAt: s.ClearET, SetExpiredAt: ts(s.ET)}
+		}
+		if s.Cond != "" {
+			v, _ := strconv.ParseUint(s.Cond, 10, 8)
+			req.Condition = &hydrapb.PatchCondition{Path: "n", Operator: hydrapb.PatchCondition_LESS_THAN, Threshold: []byte{byte(v)}}
+		}
+		var resp *hydrapb.PatchExpiredTreasuresResponse
+		resp, err = gw.PatchExpiredTreasures(ctx, req)
+		for _, p := range resp.GetPatched() {
+			note(p.GetStatus().String(), 1)
+		}
+	case "shexp":
+		rpc = "ShiftExpiredTreasures"
+		var resp *hydrapb.ShiftExpiredTreasuresResponse
+		resp, err = gw.ShiftExpiredTreasures(ctx, &hydrapb.ShiftExpiredTreasuresRequest{IslandID: x.island, SwampName: x.swamp, HowMany: s.HowMany})
+		note("shifted", len(resp.GetTreasures()))
+	case "shmatch":
+		rpc = "ShiftMatchingTreasures"
+		ot := hydrapb.OrderType_ASC
+		if s.Desc {
+			ot = hydrapb.OrderType_DESC
+		}
+		var resp *hydrapb.ShiftMatchingTreasuresResponse
+		resp, err = gw.ShiftMatchingTreasures(ctx, &hydrapb.ShiftMatchingTreasuresRequest{IslandID: x.island, SwampName: x.swamp, IndexType: indexEnum[s.Index], OrderType: ot,
+			HowMany: s.HowMany, FromTime: tsp(s.FromTime), ToTime: tsp(s.ToTime)})
+		note("shifted", len(resp.GetTreasures()))
+	case "shkeys":
+		rpc = "ShiftByKeys"
+		var resp *hydrapb.ShiftByKeysResponse
+		resp, err = gw.ShiftByKeys(ctx, &hydrapb.ShiftByKeysRequest{IslandID: x.island, SwampName: x.swamp, Keys: s.Keys})
+		note("shifted", len(resp.GetTreasures()))
+	}
+	x.res.claims[rpc+":calls"]++
+	if err != nil {
+		x.res.claims[rpc+":error"]++
+	}
+	if os.Getenv("C07_TRACE") != "" {
+		fmt.Printf("TRACE claim %s reported=%d err=%v\n", rig.Dump(s), reported, err)
+	}
+	if reported > 0 {
+		for fam, st := range x.fam {
+			switch {
+			case !st.built:
+			case s.Op != "pexp":
+				st.claim = "shift"
+			case fam == "etime":
+				st.claim = "patch-expired"
+			}
+		}
+	}
+	x.res.writes++
+}
+
 func (x *runner) doWrite(s step) {
+	if isClaimOp(s.Op) {
+		x.doClaim(s)
+		return
+	}
 	switch s.Op {
 	case "set":
 		_, _ = x.r.GW.Set(x.ctx, &hydrapb.SetRequest{Swamps: []*hydrapb.SwampRequest{{IslandID: x.island, SwampName: x.swamp,
@@ -549,7 +660,7 @@ func (x *runner) doRead(stepIdx int, q *readReq, forcedTag string) {
 		// size of the admissible page, for the non-triviality rule
 		if len(R) >= 2 {
 			res.strongBig++
-			if tag == "incremental" || tag == "moved" {
+			if tag == "incremental" || tag == "moved" || tag == "after-patch-expired" || tag == "after-shift" {
 				res.sawWarmIndex = true
 			}
 		}
@@ -563,19 +674,12 @@ func (x *runner) doRead(stepIdx int, q *readReq, forcedTag string) {
 	}
 	// bookkeeping: the index family is now built
 	if len(contents) > 0 {
-		st := x.fam[family(q.Index)]
-		if !st.built {
-			*st = famState{built: true, types: map[string]bool{}, kinds: map[string]bool{}}
-			x.noteKinds()
-		}
-		if family(q.Index) == "value" {
-			st.types[q.Index] = true
-		}
+		x.markBuilt(family(q.Index), q.Index)
 	}
 }
 
 func runCase(t *testing.T, hc hcase) *caseResult {
-	res := &caseResult{tags: map[string]int{}, weak: map[string]int{}, indexes: map[string]int{}, rpcs: map[string]int{}}
+	res := &caseResult{tags: map[string]int{}, weak: map[string]int{}, indexes: map[string]int{}, rpcs: map[string]int{}, claims: map[string]int{}}
 	root := rig.TempRoot("c07")
 	defer rig.RemoveAll(root)
 	synctest.Test(t, func(t *testing.T) {
@@ -651,11 +755,13 @@ func runCase(t *testing.T, hc hcase) *caseResult {
 func TestCheck(t *testing.T) {
 	c := rig.NewCheck(t, "C07", "exploration")
 	defer c.Finish()
-	c.Rule = "histories of Set/Increment*/PatchTreasures/Delete (+virtual sleeps, idle evictions) on one swamp per value kind " +
+	c.Rule = "histories of Set/Increment*/PatchTreasures/Delete and, in half of them, the claim RPCs PatchExpiredTreasures (ops only / Meta without, with SetExpiredAt, with ClearExpiredAt / failing condition) / " +
+		"ShiftExpiredTreasures / ShiftMatchingTreasures (every index type, both orders, time windows) / ShiftByKeys with small HowMany and expiry times before virtual now " +
+		"(+virtual sleeps, idle evictions) on one swamp per value kind " +
 		"(int8..uint64, float32/64 incl. ±Inf/−0/NaN, string, msgpack bytes, mixed) interleaved with GetByIndex/GetByIndexStream reads over " +
 		"KEY / CREATION_TIME / UPDATE_TIME / EXPIRATION_TIME / VALUE_<kind>, ASC/DESC, From, Limit (incl. 0), FromTime/ToTime (equal to a record, ±1ns, empty, inverted), " +
 		"KeysOnly, IncludedKeys/ExcludeKeys, MaxResults; each read is judged against the index model applied to the contents read through GetAll; " +
-		"non-trivial = the history has a doc-determined read returning >= 2 records on an index that had been built earlier and then received an insert or a moved sort value; distinct = distinct history JSON"
+		"non-trivial = the history has a doc-determined read returning >= 2 records on an index that had been built earlier and then received an insert, a removal, a moved sort value or a claim RPC that reported >= 1 record; distinct = distinct history JSON"
 	c.Assumptions = []string{
 		"swamp contents are taken from the index-free GetAll path immediately before each read (the property is relative to the contents reached, not to write semantics)",
 		"unspecified, any outcome accepted (only no-duplicates / keys-exist / Limit respected are demanded): index read on a missing or emptied swamp (error or empty)",
@@ -667,6 +773,7 @@ func TestCheck(t *testing.T) {
 		"Limit=0 means all (proto comment); From beyond the end yields an empty page; FromTime==ToTime is the empty window [t,t)",
 		"keys and string values are lower-case ASCII letters only, so that 'alphabetical' has one reading; −0 and +0 are one tie class",
 		"negative From/Limit and pre-epoch timestamps are not generated (C26 / C30)",
+		"which records a claim RPC selects, patches or removes is not judged here (C18/C19): the contents after it are read through GetAll like after any other write, and only the indexes it leaves behind are judged",
 		"the racing-build cases need the hook swamp.buildBeacon.afterInit; while /repo has no such call site they are counted inconclusive",
 	}
 	nHist := c.N(300, 5000)
@@ -684,6 +791,7 @@ func TestCheck(t *testing.T) {
 		cases = append(cases, w.Witness.Case)
 	} else {
 		cases = append(cases, fixedCases()...)
+		cases = append(cases, fixedClaimCases()...)
 		for i := 0; i < nHist; i++ {
 			cases = append(cases, genCase(c.Rand(i), reads))
 		}
@@ -777,6 +885,12 @@ func runCases(t *testing.T, c *rig.Check, cases []hcase) {
 		}
 		for rp, n := range res.rpcs {
 			c.Count("rpc_"+rp, int64(n))
+		}
+		for cl, n := range res.claims {
+			c.Count("claim_"+cl, int64(n))
+		}
+		if hc.Claims {
+			c.Count("histories_with_claim_rpcs", 1)
 		}
 		c.Seen("value_kinds", hc.Kind)
 		if hc.Forced {
